@@ -2,6 +2,7 @@
 """Writes the prompt of one fresh sub-agent of the seeded-change experiment (DESIGN.md 10.1).
 
 usage: mkprompts.py <PROP> <agent name> <worktree> [N]     -> prompt on stdout
+       mkprompts.py --benign <PROP> <agent name> <worktree> [N]    (behaviour-preserving changes, benign/TEMPLATE.txt)
 
 The agent gets the property text, its own worktree and, as ideas *not* to repeat, the one-line summaries of the changes
 earlier agents delivered for this property.  Nothing from /verif goes in.
@@ -36,7 +37,35 @@ def used(pid):
     return res
 
 
+def used_benign(pid):
+    res = []
+    for mf in sorted(glob.glob(os.path.join(VERIF, "benign", "B" + pid[1:] + "*", "meta.json"))):
+        m = json.load(open(mf))
+        if m.get("summary"):
+            res.append(m["summary"])
+    return res
+
+
+def main_benign():
+    pid, name, wt = sys.argv[2:5]
+    n = sys.argv[5] if len(sys.argv) > 5 else "4"
+    t = open(os.path.join(VERIF, "benign", "TEMPLATE.txt")).read()
+    extra = ("\n\nThings an over-strict checker may wrongly depend on, as further inspiration (use what fits this code; each must keep the property true): "
+             "per-thread scratch space or caches (thread_local, correctly keyed, so that callers on different threads still see the same results); "
+             "lazily initialised function-local static lookup tables (thread-safe initialisation); different allocation sizes, counts or growth; "
+             "default- instead of value-initialisation of storage that is overwritten before it can be read; stricter alignment of internal buffers; "
+             "another exception class where the property allows it; bulk copies (memcpy/memmove/std::copy) for trivially copyable ranges; "
+             "internal copies or moves of temporaries at other moments; delegating one overload to another; other order of independent internal steps.")
+    u = used_benign(pid)
+    if u:
+        extra += "\nThese ideas were already delivered by others - find different ones:\n" + "\n".join("   - " + x for x in u)
+    t = t.replace("@PROP@", prop_text(pid) + extra).replace("@WT@", wt).replace("@N@", n)
+    sys.stdout.write(t)
+
+
 def main():
+    if sys.argv[1] == "--benign":
+        return main_benign()
     pid, name, wt = sys.argv[1:4]
     n = sys.argv[4] if len(sys.argv) > 4 else "3"
     t = open(os.path.join(VERIF, "seeded", "TEMPLATE.txt")).read()
